@@ -162,14 +162,7 @@ func RunOne(c *core.Ctx, bin string, sc *Scenario, root string, chk *Checker, o 
 		out.Post = PostObs{Errors: []string{}, Sites: []SiteObs{}, Funcs: []FuncObs{}, Reserved: []string{}, Unresolved: []string{}}
 	}
 	compress(r.Events)
-	calls := sc.Calls
-	if calls == nil {
-		calls = []CallSpec{}
-	}
-	out.Lines = append(out.Lines, marshal(map[string]interface{}{
-		"ev": "RunStart", "id": sc.ID, "ident": sc.Ident, "calls": calls, "assertExit": sc.AssertExit,
-		"autoname": sc.Autoname, "dedup": sc.Dedup,
-	}))
+	out.Lines = append(out.Lines, runStartLine(sc))
 	for _, e := range r.Events {
 		out.Lines = append(out.Lines, marshal(e))
 	}
@@ -200,13 +193,25 @@ func RunOne(c *core.Ctx, bin string, sc *Scenario, root string, chk *Checker, o 
 		}
 	}
 	out.Lines = append(out.Lines, marshal(map[string]interface{}{
-		"ev": "RunEnd", "id": sc.ID, "exit": r.Exit, "timedout": r.TimedOut, "panicked": out.Panicked,
+		"ev": "RunEnd", "id": sc.ID, "exit": r.Exit, "timedout": r.TimedOut, "panicked": out.Panicked, "diagnostic": strings.TrimSpace(r.Stderr) != "",
 		"changedFiles": out.Changed, "post": out.Post,
 	}))
 	if !o.KeepDirs {
 		os.RemoveAll(root)
 	}
 	return out, nil
+}
+
+// runStartLine is the RunStart record the harness puts in front of a run's events.
+func runStartLine(sc *Scenario) []byte {
+	calls := sc.Calls
+	if calls == nil {
+		calls = []CallSpec{}
+	}
+	return marshal(map[string]interface{}{
+		"ev": "RunStart", "id": sc.ID, "ident": sc.Ident, "calls": calls, "assertExit": sc.AssertExit,
+		"autoname": sc.Autoname, "dedup": sc.Dedup, "mustSucceed": sc.MustSucceed, "wellTyped": sc.WellTyped,
+	})
 }
 
 // RunAll runs every scenario on the real generator, in parallel, order preserved.
